@@ -65,7 +65,7 @@ Open Scope string_scope.
 Theorem federation_transparent :
   forall w g pick q flat,
     (forall l s, pick l = Some s -> In s l) -> (forall l, l <> [] -> exists s, pick l = Some s) ->
-    fed_ok g = true -> fed_ok2 g = true -> sel_ok g = true ->
+    fed_ok0 g = true -> plain_ok g = true -> fed_ok2 g = true -> sel_ok g = true ->
     world_ok w g -> (forall ty id f ak, scalars_ok (w_value w ty id f ak)) ->
     (forall ty id f ak owners, find_gfield g ty f = Some (RScalar, owners) -> sval (w_value w ty id f ak)) ->
     forallb qwf q = true ->
@@ -91,7 +91,7 @@ Theorem choice_independent :
   forall w g pick1 pick2 q flat,
     (forall l s, pick1 l = Some s -> In s l) -> (forall l s, pick2 l = Some s -> In s l) ->
     (forall l, l <> [] -> exists s, pick1 l = Some s) -> (forall l, l <> [] -> exists s, pick2 l = Some s) ->
-    fed_ok g = true -> fed_ok2 g = true -> sel_ok g = true ->
+    fed_ok0 g = true -> plain_ok g = true -> fed_ok2 g = true -> sel_ok g = true ->
     world_ok w g -> (forall ty id f ak, scalars_ok (w_value w ty id f ak)) ->
     (forall ty id f ak owners, find_gfield g ty f = Some (RScalar, owners) -> sval (w_value w ty id f ak)) ->
     forallb qwf q = true ->
@@ -140,7 +140,7 @@ Print Assumptions hop_subqueries_are_queries.
     _federation keys are deleted). *)
 Theorem plan_and_stitch_is_combined_server :
   forall w g pick,
-    (forall l s, pick l = Some s -> In s l) -> fed_ok g = true -> fed_ok2 g = true ->
+    (forall l s, pick l = Some s -> In s l) -> fed_ok0 g = true -> plain_ok g = true -> fed_ok2 g = true ->
     world_ok w g -> (forall ty id f ak, scalars_ok (w_value w ty id f ak)) ->
     forall fuel flat p,
       plan_root g pick fuel flat = Some p -> flat_ok g "Query" flat = true ->
